@@ -106,6 +106,8 @@ func (n *UDFNode) runUDF(snapshot []byte) (err error) {
 		for m := range out {
 			if err := edge.Forward(n.outs, m); err != nil {
 				forwardErr <- err
+				// Nobody reads the output of the UDF anymore, do not let it block.
+				n.udf.Abort(err)
 				return
 			}
 		}
@@ -133,12 +135,14 @@ func (n *UDFNode) runUDF(snapshot []byte) (err error) {
 	n.wg.Wait()
 
 	// Close the udf
-	if err := n.udf.Close(); err != nil {
-		return err
-	}
+	closeErr := n.udf.Close()
 
-	// Wait/Return any error from the forwarding goroutine
-	return <-forwardErr
+	// Always wait for the forwarding goroutine, the child edges are closed once this function returns.
+	fErr := <-forwardErr
+	if closeErr != nil {
+		return closeErr
+	}
+	return fErr
 }
 
 func (n *UDFNode) abortedCallback() {
